@@ -119,7 +119,10 @@ func (l *listener) receiveRetry(ctx context.Context) (ndp.Message, netip.Addr, e
 	// TODO(mdlayher): consider parameterizing in the future if need be.
 	const retries = 5
 
-	for i := 0; i < retries; i++ {
+	// Only receive timeouts count against the number of retries: an invalid
+	// message is skipped without consuming a retry, so that no number of them
+	// can stop the listener.
+	for i := 0; i < retries; {
 		// Enable cancelation before receiving any messages, if necessary.
 		if err := ctx.Err(); err != nil {
 			return nil, netip.Addr{}, err
@@ -141,6 +144,8 @@ func (l *listener) receiveRetry(ctx context.Context) (ndp.Message, netip.Addr, e
 					return nil, netip.Addr{}, ctx.Err()
 				case <-time.After(time.Duration(i) * 50 * time.Millisecond):
 				}
+
+				i++
 				continue
 			}
 
